@@ -47,6 +47,7 @@ type tlsVec struct {
 	CertNames [][]string `json:"certnames"`
 	SeqPins   []seqPin   `json:"seqpins"`
 	Calls     []seqCall  `json:"calls"`
+	Clock     *clockSpec `json:"clock,omitempty"`
 	Conds     struct {
 		Chain bool `json:"chain"`
 		Time  bool `json:"time"`
@@ -536,6 +537,8 @@ func init() {
 		hsExtra := fs.Int("handshake-extra", 400, "handshakes on vectors with two or more failing conditions")
 		meshN := fs.Int("mesh", 64, "mesh dials (0 = all stream vectors)")
 		work := fs.String("work", "", "scratch directory")
+		clockN := fs.Int("clock", 72, "time-line vectors to run (0 = all)")
+		clockStep := fs.Duration("clock-step", 2*time.Second, "real duration of one tick of the clock family (multiple of 2 s)")
 		_ = fs.Parse(args)
 		res := &Result{}
 		defer func() { res.write(*out) }()
@@ -574,9 +577,11 @@ func init() {
 
 			return
 		}
-		var table, stream, seqs []*tlsVec
+		var table, stream, seqs, clocks []*tlsVec
 		for i := range vecs {
-			if vecs[i].Fam == "seq" {
+			if vecs[i].Fam == "clock" {
+				clocks = append(clocks, &vecs[i])
+			} else if vecs[i].Fam == "seq" {
 				seqs = append(seqs, &vecs[i])
 			} else if vecs[i].Fam == "stream" {
 				stream = append(stream, &vecs[i])
@@ -586,6 +591,9 @@ func init() {
 		}
 		// deterministic order independent of TLC's
 		sort.Slice(table, func(i, j int) bool { return fmt.Sprint(*table[i]) < fmt.Sprint(*table[j]) })
+		sort.Slice(clocks, func(i, j int) bool {
+			return fmt.Sprint(*clocks[i].Clock, *clocks[i]) < fmt.Sprint(*clocks[j].Clock, *clocks[j])
+		})
 		sort.Slice(seqs, func(i, j int) bool { return fmt.Sprint(*seqs[i]) < fmt.Sprint(*seqs[j]) })
 		sort.Slice(stream, func(i, j int) bool { return fmt.Sprint(*stream[i]) < fmt.Sprint(*stream[j]) })
 
@@ -614,6 +622,10 @@ func init() {
 		nodes := make(chan *netceptor.Netceptor, workers)
 		for k := 0; k < workers; k++ {
 			nodes <- netceptor.New(ctx, env.ownID)
+		}
+		// the time line first, while the machine is otherwise idle
+		if len(clocks) > 0 {
+			runClock(env, ctx, selectClock(clocks, *clockN, rand.New(rand.NewSource(*seed+17))), *clockStep, workers)
 		}
 		distinct := sync.Map{}
 		ndistinct := 0
@@ -707,8 +719,8 @@ func init() {
 		})
 		cancel()
 		res.mu.Lock()
-		res.Evaluations = len(table) + res.Counters["vectors_seq"]
-		res.Distinct = ndistinct + res.Counters["vectors_seq"]
+		res.Evaluations = len(table) + res.Counters["vectors_seq"] + res.Counters["vectors_clock"]
+		res.Distinct = ndistinct + res.Counters["vectors_seq"] + res.Counters["vectors_clock"]
 		res.mu.Unlock()
 		res.add("certificates_made", int(p.made))
 
